@@ -36,6 +36,7 @@ import (
 	"errors"
 	"fmt"
 	"io"
+	"net"
 	"reflect"
 	"sort"
 	"strings"
@@ -939,7 +940,29 @@ func body(c cfg) func() {
 			return
 		}
 		w.origin = "add"
-		if c.origin != "" {
+		if strings.HasPrefix(c.origin, "udpdial") {
+			// a datagram socket that reads for itself (what a dialed UDP connection handed to
+			// AddConn becomes), after n completed read rounds: the read loop of such a
+			// connection ends with EAGAIN every time, which must not leave anything behind that
+			// a later expiry could report instead of its own error
+			w.origin = c.origin
+			fd, up := vsys.NewUDPSocket(9001)
+			w.conn = nbio.VerifNewConn(fd, nbio.ConnTypeUDPClientFromDial, &net.UDPAddr{IP: net.IPv4(127, 0, 0, 1), Port: 9001}, &net.UDPAddr{IP: net.IPv4(10, 0, 0, 1), Port: 7001})
+			if _, err := g.AddConn(w.conn); err != nil {
+				vsched.Fail("harness|AddConn: %v", err)
+				return
+			}
+			for i := 0; i < int(c.origin[len(c.origin)-1]-'0'); i++ {
+				up.Send(7001, []byte{byte(i + 1)})
+				vsched.WaitIdle()
+			}
+			vsched.WaitIdle()
+			w.counters["udp_dialed_datagrams_delivered_before_the_operations"] += w.counters["inbound_bytes_delivered"]
+			if vtime.Armed() != 0 {
+				vsched.Fail("harness|timers armed before the first operation: %v", vtime.ArmedNames())
+				return
+			}
+		} else if c.origin != "" {
 			w.origin = c.origin
 			if !w.dial(g, c.ops) {
 				for _, f := range w.fails {
@@ -1411,6 +1434,23 @@ func build(tier string) []*vkit.Scenario {
 					p++
 				}
 				add(cfg{mode: m, origin: o, ops: x.ops, p: p}, 500)
+			}
+		}
+	}
+	// a dialed UDP connection (a datagram socket that reads for itself) that has received 0, 1 or 2
+	// datagrams before the operations: one expiry per kind of deadline, renewal, clear, Close
+	for _, l := range [][]op{{R(5)}, {W(5)}, {D(5)}, {R(5), R(0), R(9)}, {W(5), W(9)}, {D(5), C}, {R(5), Z, R(5)}, {D(5), D(0)}} {
+		for _, o := range []string{"udpdial0", "udpdial1", "udpdial2"} {
+			if !thorough && (len(l) > 1 && o != "udpdial1") {
+				continue
+			}
+			p := 1
+			if thorough || len(l) == 1 {
+				p = 2
+			}
+			add(cfg{mode: ekit.LT, origin: o, ops: l, p: p}, 300)
+			if thorough {
+				add(cfg{mode: ekit.ET, origin: o, ops: l, p: p}, 300)
 			}
 		}
 	}
